@@ -35,8 +35,9 @@ QuickA == FixedS(3)
           \cup BootCvS(1, 2, 2, 1, 3, 1, 9, Types, {"subj", "grp"}, {"cond"})
           \cup DualS(1, 2, 2, 1, 2, 0, 9, {"index", "grp"}, {"index"})
           \cup DualRandS(1, 2, 1, 0, 3, 1, 9, Types, {"index", "grp"}, {"cond"})
-\* NR = 3, NC = 3, every draw outcome (27 x 27), one sample
-QuickB == BootS(1, 3, {<<TRUE, TRUE>>}, {"subj"}, {"cond"})
+\* NR = 3, NC = 3, every draw outcome (27 x 27) of the first sample, second sample identity / all-first
+\* (eval_bootstrap* cannot run with N = 1)
+QuickB == BootS(2, 3, {<<TRUE, TRUE>>}, {"subj"}, {"cond"})
 \* NR = 3, NC = 6, trimmed draws: condition groups ('cat': 3 groups of 2), folds over conditions
 QuickC == BootS(2, 3, {<<TRUE, TRUE>>, <<FALSE, TRUE>>}, {"grp"}, {"cat"})
           \cup BootCvS(1, 1, 1, 2, 3, 9, 1, {<<TRUE, TRUE>>, <<FALSE, TRUE>>}, {"index"}, {"index", "cat"})
@@ -45,8 +46,9 @@ QuickC == BootS(2, 3, {<<TRUE, TRUE>>, <<FALSE, TRUE>>}, {"grp"}, {"cat"})
           \cup DualRandS(1, 2, 1, 3, 2, 0, 0, {<<TRUE, TRUE>>}, {"index"}, {"index"})
 
 (* ---- thorough tier ---- *)
-\* NR = 3, NC = 4, every draw outcome (27 x 256), one sample
-ThorA == BootS(1, 3, Types, {"subj", "grp"}, {"cond"})
+\* NR = 3, NC = 4, every draw outcome (27 x 256) of the first sample, second sample identity / all-first
+ThorA == BootS(2, 3, {<<TRUE, TRUE>>}, {"subj"}, {"cond"})
+         \cup BootS(2, 3, {<<TRUE, FALSE>>, <<FALSE, TRUE>>}, RBys, PBys)
 \* NR = 3, NC = 4, every draw outcome, cross-validation over RDM groups, two repetitions
 ThorB == BootCvS(1, 2, 2, 1, 2, 1, 9, {<<TRUE, TRUE>>}, {"subj"}, {"cond"})
 \* NR = 3, NC = 4, trimmed draws, two samples of everything
